@@ -143,6 +143,25 @@ def check(ctx):
                    f"leaves key.data in place): the next event appends the same stream again and the peer receives it twice",
                    key="slot_once", witness=wit)
 
+    # accumulation happens for every event, before anything that may clear the slot
+    if len(acc) == 1:
+        cfg = make_cfg(repo, run.node)
+        dom = cfg.dominators()
+        tests = [nd for nd in cfg.nodes.values() if nd.kind == "test" and ast.unparse(nd.ast) in ("key.data is not None", "key.data")]
+        clearers = []
+        for nd in cfg.nodes.values():
+            for c in node_calls(nd):
+                for cal in R.resolve_call(run, c, R.local_types(run))[0]:
+                    if cal.qual in funcs and _may_clear(repo, R, funcs, cal):
+                        clearers.append(nd)
+        okd = bool(tests) and bool(clearers) and all(any(t.id in dom[cn.id] for t in tests) for cn in clearers)
+        ctx.decide(okd, "R-DOM/accumulate-first", run.qual, run.where(acc[0]),
+                   "every call that may clear the selector slot is dominated by the `key.data is not None` accumulation test",
+                   "a call that re-registers the socket (read()/write() -> _set_selector_events_mask) can run in an iteration in which "
+                   "key.data was not looked at first (the accumulation is conditional on the event mask): when the first event after "
+                   "a hand-over is READ-only the attached stream is dropped by read()'s re-registration and never written",
+                   key="accumulate_first")
+
     # ---- 4 guarded downgrade -----------------------------------------------------------------------------------
     ctx.clause = "4-guarded-downgrade"
     downs = []
@@ -246,6 +265,38 @@ def check(ctx):
                    "after messages were dequeued and serialised, the wait-for-write-mode loop can end (stop flag set / transport gone) "
                    "without the stream being handed to the transport: the dequeued messages are lost", key="handoff")
         ctx.count("handoff_paths", sum(len(v) for v in classes.values()))
+    # the stream is attached only when the previous one has been picked up (transport not in write mode)
+    cfg = make_cfg(repo, snd.node)
+    dom = cfg.dominators()
+    hands = [nd for nd in cfg.nodes.values() if any(call_name(c).endswith("_set_selector_events_mask") and len(c.args) > 1 for c in node_calls(nd))]
+    for hn in hands:
+        okg = False
+        for d in dom[hn.id]:
+            dn = cfg.nodes[d]
+            if dn.kind == "test" and ast.unparse(dn.ast) == "not self.transport.is_write_mode()":
+                tb = [m for m, l in cfg.succ[d] if l == "T"]
+                if tb and hn.id in cfg.reachable(tb[0]) and (d == hn.id or True):
+                    # the false branch must not reach this hand-off without passing the test again
+                    fb = [m for m, l in cfg.succ[d] if l == "F"]
+                    reach_f = set()
+                    for m in fb:
+                        seen, st_ = {m}, [m]
+                        while st_:
+                            x = st_.pop()
+                            if x == d:
+                                continue
+                            for y, l in cfg.succ.get(x, []):
+                                if y not in seen:
+                                    seen.add(y)
+                                    st_.append(y)
+                        reach_f |= seen
+                    if hn.id not in reach_f:
+                        okg = True
+        ctx.decide(okg, "R-DOM/handoff-guard", snd.qual, snd.where(hn.ast),
+                   "the stream is attached only under `not transport.is_write_mode()`",
+                   "the serialised stream is attached to the selector key without a dominating `not self.transport.is_write_mode()` "
+                   "test: the single data slot may still hold the previous stream, which is silently replaced - the earlier batch of "
+                   "messages is lost", key=f"handoff_guard")
     # the hand-off passes the stream as the key data
     setter = ctx.need(repo.funcs.get("bromelia.transport.TcpConnection._set_selector_events_mask"), "_set_selector_events_mask")
     ok = False
@@ -293,3 +344,15 @@ def _block_of(fn, stmt):
             if isinstance(b, list) and stmt in b:
                 return b
     return fn.body
+
+
+def _may_clear(repo, R, funcs, fi, depth=0):
+    for c in fn_calls(fi.node):
+        nm = call_name(c)
+        if nm.endswith("_set_selector_events_mask") or nm.endswith("selector.modify"):
+            return True
+        if depth < 2:
+            for cal in R.resolve_call(fi, c, R.local_types(fi))[0]:
+                if cal.qual in funcs and cal is not fi and _may_clear(repo, R, funcs, cal, depth + 1):
+                    return True
+    return False
